@@ -1143,6 +1143,17 @@ def identity(x: T) -> T:
     return x
 
 
+def _pack_prop_model_name(name: str) -> bytes:
+    """Encode a model name for the fixed-size dictionary of the static and detail prop lumps.
+
+    The entries are null-terminated 128 byte buffers, struct would silently truncate longer names.
+    """
+    data = name.encode('ascii', 'surrogateescape')
+    if len(data) >= 128:
+        raise OverflowError(f'Model name "{name}" exceeds 128 character limit')
+    return struct.pack('<128s', data)
+
+
 def runlength_decode(
     data: Union[bytes, bytearray],
     start: int = 0, max_clusters: int = -1,
@@ -3218,7 +3229,7 @@ class BSP:
         prop_lump = BytesIO()
         prop_lump.write(struct.pack('<i', len(model_list)))
         for name in model_list:
-            prop_lump.write(struct.pack('<128s', name.encode('ascii', 'surrogateescape')))
+            prop_lump.write(_pack_prop_model_name(name))
 
         prop_lump.write(struct.pack('<i', len(leaf_array)))
         prop_lump.write(write_array(self.lump_layout['STATICPROPLEAF'], leaf_array))
@@ -3468,7 +3479,7 @@ class BSP:
         # Now build the complete lump.
         yield struct.pack('<i', len(models))
         for name in models:
-            yield struct.pack('<128s', name.encode('ascii', 'surrogateescape'))
+            yield _pack_prop_model_name(name)
         yield struct.pack('<i', len(sprites))
         spr_format = struct.Struct('<8f')
         for spr in sprites:
